@@ -495,14 +495,21 @@ def s_starfinder(E):
 # ---------------- background ----------------
 @scenario('Background2D', data=ARR + ['nddata'], error=None, cov=['none', 'coverage'],
           est=['default', 'mean', 'median', 'mmm', 'biweight', 'mode'], interp=['zoom', 'idw'],
-          filt=['plain', 'threshold'])
+          filt=['plain', 'threshold'], box=['10', '10', 'full', 'exact', 'edge_crop'])
 def s_background2d(E):
     from photutils.background import (Background2D, MeanBackground, MedianBackground, MMMBackground,
                                       BiweightLocationBackground, ModeEstimatorBackground,
                                       MADStdBackgroundRMS, BiweightScaleBackgroundRMS, BkgIDWInterpolator,
                                       BkgZoomInterpolator)
+    if E.v['box'] in ('exact', 'full'):
+        E.shape = (40, 40)          # an integer number of boxes: no padded edge, reshapes can be views
     data, mask = E.data(), E.mask()
+    box = E.shape if E.v['box'] == 'full' else (10, 10)
     kw = {}
+    if E.v['box'] == 'edge_crop':
+        kw['edge_method'] = 'crop'
+    if E.v['box'] == 'full':
+        kw['exclude_percentile'] = 100.0
     if E.v['cov'] == 'coverage':
         c = np.zeros(E.shape, bool)
         c[:, :4] = True
@@ -517,7 +524,7 @@ def s_background2d(E):
     kw['interpolator'] = BkgIDWInterpolator() if E.v['interp'] == 'idw' else BkgZoomInterpolator()
     if E.v['filt'] == 'threshold':
         kw['filter_threshold'] = 6.0
-    bkg = E.call('init', lambda: Background2D(data, (10, 10), mask=mask, filter_size=3, **kw))
+    bkg = E.call('init', lambda: Background2D(data, box, mask=mask, filter_size=3 if E.v['box'] != 'full' else 1, **kw))
     if bkg is not None:
         names = ['background', 'background_rms', 'background_mesh', 'background_rms_mesh',
                  'background_median', 'background_rms_median', 'mesh_nmasked', 'npixels_mesh',
